@@ -17,10 +17,17 @@ import (
 	e2wtypes "github.com/wealdtech/go-eth2-wallet-types/v2"
 )
 
-type hSubscriber struct{ calls int }
+type hSubscriber struct {
+	calls int
+	// next, when set, is what the next subscription returns
+	next map[phase0.Slot]map[phase0.CommitteeIndex]*beaconcommitteesubscriber.Subscription
+}
 
 func (h *hSubscriber) Subscribe(_ context.Context, _ phase0.Epoch, _ map[phase0.ValidatorIndex]e2wtypes.Account) (map[phase0.Slot]map[phase0.CommitteeIndex]*beaconcommitteesubscriber.Subscription, error) {
 	h.calls++
+	if h.next != nil {
+		return h.next, nil
+	}
 	return map[phase0.Slot]map[phase0.CommitteeIndex]*beaconcommitteesubscriber.Subscription{}, nil
 }
 
